@@ -14,6 +14,8 @@
 //	           :<status>:<0|1 http/1.0>:<hdrs>:<[z]len>.<seed>.<digest>.<bytes on the wire>:<c|k<seed>|x|n>   (z: gzip of the generated body)
 //	           [:a | :e<k>]   how the origin reads the request body: a = all of it before answering (default),
 //	                          e<k> = it answers after k bytes of the body (e0: on the head alone) and reads the rest afterwards
+//	           [:f<k>]        origin FAULT: it reads the whole request, writes the first k bytes of its response head (never
+//	                          all of it) and closes the connection; the client is then owed the proxy's 502
 //	hdrs      hexname=hexvalue,...  or -   (the literal text ORIGIN inside a value stands for the origin's host:port)
 //
 // OUT tokens:  Q:<METHOD>:<hex target>:<hdrs lower-cased names>:<len>.<digest>   one per request the origin received
@@ -60,6 +62,7 @@ type exch struct {
 	SBSeed uint64
 	RsF    string // c | k<seed> | x | n
 	Rd     int    // -1: the origin reads the whole request before answering; k >= 0: it answers after k body bytes
+	Fault  int    // -1: none; k >= 0: the origin reads the request, writes k bytes of its response head (never all of it) and closes
 }
 
 func (e *exch) reqBody() []byte { return p1x.GenBody(e.BLen, e.BSeed) }
@@ -94,6 +97,9 @@ func (e *exch) token() string {
 	if e.Rd >= 0 {
 		rd = fmt.Sprintf(":e%d", e.Rd)
 	}
+	if e.Fault >= 0 {
+		rd += fmt.Sprintf(":f%d", e.Fault)
+	}
 	return fmt.Sprintf("X:%s:%s:%s:%d:%s:%d.%d.%d:%s:%d:%d:%s:%s%d.%d.%d.%d:%s"+rd,
 		e.Method, form, hx.HexS(e.PQ)[1:], b2i(e.V10), p1x.HdrTok(e.Hdrs, false), len(rb), e.BSeed, p1x.Digest(rb), e.RqF,
 		e.Status, b2i(e.SV10), p1x.HdrTok(e.SHdrs, false), z, e.SBLen, e.SBSeed, p1x.Digest(sb), len(sb), e.RsF)
@@ -108,16 +114,26 @@ func b2i(b bool) int {
 
 func parseExch(tok string) (*exch, error) {
 	f := strings.Split(tok, ":")
-	if (len(f) != 13 && len(f) != 14) || f[0] != "X" {
+	if len(f) < 13 || len(f) > 15 || f[0] != "X" {
 		return nil, fmt.Errorf("bad exchange token (%d fields)", len(f))
 	}
-	e := &exch{Method: f[1], Abs: f[2] == "a", V10: f[4] == "1", RqF: f[7], SV10: f[9] == "1", RsF: f[12], Rd: -1}
-	if len(f) == 14 && strings.HasPrefix(f[13], "e") {
-		k, err := strconv.Atoi(f[13][1:])
-		if err != nil || k < 0 {
-			return nil, fmt.Errorf("bad read mode")
+	e := &exch{Method: f[1], Abs: f[2] == "a", V10: f[4] == "1", RqF: f[7], SV10: f[9] == "1", RsF: f[12], Rd: -1, Fault: -1}
+	for _, opt := range f[13:] {
+		switch {
+		case opt == "a" || opt == "":
+		case strings.HasPrefix(opt, "e") || strings.HasPrefix(opt, "f"):
+			k, err := strconv.Atoi(opt[1:])
+			if err != nil || k < 0 {
+				return nil, fmt.Errorf("bad option")
+			}
+			if opt[0] == 'e' {
+				e.Rd = k
+			} else {
+				e.Fault = k
+			}
+		default:
+			return nil, fmt.Errorf("bad option")
 		}
-		e.Rd = k
 	}
 	pq, err := hx.UnHex("x" + f[3])
 	if err != nil {
@@ -202,6 +218,19 @@ func (e *exch) requestBytes(origin string) (head, body []byte) {
 		b.WriteString("\r\n")
 	}
 	return b.Bytes(), body
+}
+
+// originAction: what the origin does once it has the request.
+func (e *exch) originAction() p1x.Action {
+	rb := e.responseBytes()
+	if e.Fault >= 0 {
+		k := e.Fault
+		if end := bytes.Index(rb, []byte("\r\n\r\n")); k > end+2 {
+			k = end + 2 // never the complete head
+		}
+		return p1x.Action{Bytes: rb[:k], Close: true}
+	}
+	return p1x.Action{Bytes: rb, Close: e.originCloses()}
 }
 
 func (e *exch) originCloses() bool {
@@ -336,7 +365,7 @@ func runCase(in []string) (out []string) {
 		if j >= len(exs) {
 			return p1x.Action{Bytes: []byte("HTTP/1.1 500 Unexpected\r\nContent-Length: 0\r\nConnection: close\r\n\r\n"), Close: true}
 		}
-		return p1x.Action{Bytes: exs[j].responseBytes(), Close: exs[j].originCloses()}
+		return exs[j].originAction()
 	})
 
 	pl, err := net.Listen("tcp", "127.0.0.1:0")
